@@ -41,3 +41,18 @@ contract(
     setup=["d = {'vendor': vendor, 'product_type': product_type, 'product_code': product_code, "
            "'revision': {'major': major, 'minor': minor}, 'status': status, 'serial': serial, 'product_name': name}"],
     ensures=["result == d"], props=["C16", "C06"])
+
+# discover: every device that answers the broadcast is reported, whatever the length of its product name
+# (the reply of a device with an empty name is exactly 64 bytes)
+_ITEM = "spec.identity.list_identity_item(version, ip, spec.identity.identity_bytes({a}), state)"
+contract(
+    id="identity.discover.broadcast", func="pycomm3.cip_driver.CIPDriver._broadcast_discover",
+    call="pycomm3.cip_driver.CIPDriver._broadcast_discover(None, b'hello', pycomm3.packets.ListIdentityRequestPacket())",
+    params=dict(F, version=P.int(0, 65535), ip=P.bytes(len=4), state=P.int(0, 255), head=P.bytes(len=24), name2=P.str(maxlen=255, maxcp=0xFF)),
+    requires=["spec.encap.le(head, 8, 4) == 0"],
+    setup=["raw1 = head + b'\\x01\\x00' + " + _ITEM.format(a=ARGS), "raw2 = head + b'\\x01\\x00' + " + _ITEM.format(a=ARGS.replace("name", "name2")),
+           "udp = spec.env.UdpSocket([raw1, raw2])", "pycomm3.cip_driver.socket = spec.env.SocketModule(udp)"],
+    ensures=["len(result) == 2", f"result[0] == dict(spec.identity.identity_view({ARGS}), encap_protocol_version=version, "
+             "ip_address=spec.identity.dotted(ip), state=state)", "result[1]['product_name'] == name2",
+             "udp.sent == [(b'hello', ('255.255.255.255', 44818))]"],
+    props=["C16"], max_paths=20000)
